@@ -23,6 +23,7 @@ import NeoModel.Model.Ledger.Whitelist
 import NeoModel.Model.Ledger.Components
 import NeoModel.Model.Ledger.Guarded
 import NeoModel.Model.Ledger.Mgmt
+import NeoModel.Model.Ledger.Reward
 open NeoModel NeoModel.Ledger NeoModel.Ledger.Natives NeoModel.Ledger.Components NeoModel.Ledger.Guarded
 
 structure DState where
@@ -48,6 +49,8 @@ structure DState where
   roleTxs : List (CTx (GCall DesOp)) := []
   gpbTxs : List (CTx (GCall Int)) := []
   mdTxs : List (CTx (GCall Int)) := []
+  gpvA : GpvState := { store := [], cache := [] }   -- NEO reward-per-vote records (prefix 23) / gasPerVoteCache
+  gpvB : GpvState := { store := [], cache := [] }
   mdA : Comp.CNode Int Unit := { store := 1000000000, cache := (), height := 0 }   -- defaultMinimumDeploymentFee (management.go:816)
   mdB : Comp.CNode Int Unit := { store := 1000000000, cache := (), height := 0 }
   mgTxs : List (CTx Mgmt.MOp) := []
@@ -350,11 +353,12 @@ def gpbStr (g : Comp.CNode (List (Nat × Int)) (List (Nat × Int))) (next : Nat)
 
 def compsStr (s : DState) (sn : Comp.CNode (List (Nat × Int)) (List (Nat × Int))) (rn : Comp.CNode RoleStore RoleCache)
     (mn : Comp.CNode Mgmt.MStore Mgmt.MCache) (g : Comp.CNode (List (Nat × Int)) (List (Nat × Int)))
-    (md : Comp.CNode Int Unit) (height : Nat) : String :=
-  s!"set={settingsStr sn} roles={rolesStr s rn} mgmt={mgmtStr s mn} mdf={minDeployFee md.store}/{md.store} gpb={gpbStr g (height + 1)}"
+    (md : Comp.CNode Int Unit) (gv : GpvState) (height : Nat) : String :=
+  let gpv := (List.range s.nkeys).filterMap fun i => (aget gv.store (rankOf s i)).map fun v => s!"{i}:{v}"
+  s!"set={settingsStr sn} roles={rolesStr s rn} mgmt={mgmtStr s mn} mdf={minDeployFee md.store}/{md.store} gpb={gpbStr g (height + 1)} gpv={joinOr "," gpv}"
 
 def obsBoth (s : DState) : String :=
-  s!"{obsNode s s.a s.wlA (compsStr s s.setA s.roleA s.mgA s.gpbA s.mdA s.a.height)} | {obsNode s s.b s.wlB (compsStr s s.setB s.roleB s.mgB s.gpbB s.mdB s.b.height)}"
+  s!"{obsNode s s.a s.wlA (compsStr s s.setA s.roleA s.mgA s.gpbA s.mdA s.gpvA s.a.height)} | {obsNode s s.b s.wlB (compsStr s s.setB s.roleB s.mgB s.gpbB s.mdB s.gpvB s.b.height)}"
 
 def resStr : Res → String
   | .haltTrue => "halt true"
@@ -540,13 +544,23 @@ def dstep (s : DState) (ws : List String) : DState × String :=
     -- the environments are those of the caches BEFORE the block (OnPersist of this block is part of envOf)
     let eA := envOfNode s s.a
     let eB := envOfNode s s.b
+    -- reward-per-vote records: drops of the block's transactions and the accumulation of an epoch's first block, each
+    -- replica from its own natives state and its own gasPerBlock cache AFTER the block's transactions
+    -- (PostPersist: GetGASPerBlock(ic.BlockHeight()+1) = index h+1, the block being already processed by Ledger)
+    let gpbA' := gpb.estep s.gpbA (.block eA s.gpbTxs)
+    let gpbB' := gpb.estep s.gpbB (.block eB s.gpbTxs)
+    let gpvOps (n : NNode) (g : Comp.CNode (List (Nat × Int)) (List (Nat × Int))) : List GpvOp :=
+      match n.read () with
+      | some st => Reward.gpvOpsOfBlock s.cfg st n.cache (n.height + 1) s.pending ((gpbLookup g.cache (n.height + 2)).getD 0)
+      | none => []
+    let s := { s with gpvA := gpvRun s.gpvA (gpvOps s.a gpbA'), gpvB := gpvRun s.gpvB (gpvOps s.b gpbB') }
     let s := stepBoth s (.addBlock s.pending)
     let wops := s.wlPending.filterMap id
     let s := { s with a := step (nativeSys s.cfg) s.a .flush, pending := [], wlPending := [],
                       wlA := wlApply s.wlA wops, wlB := wlApply s.wlB wops,
                       setA := gsettings.estep s.setA (.block eA s.setTxs), setB := gsettings.estep s.setB (.block eB s.setTxs),
                       roleA := gdesignate.estep s.roleA (.block eA s.roleTxs), roleB := gdesignate.estep s.roleB (.block eB s.roleTxs),
-                      gpbA := gpb.estep s.gpbA (.block eA s.gpbTxs), gpbB := gpb.estep s.gpbB (.block eB s.gpbTxs),
+                      gpbA := gpbA', gpbB := gpbB',
                       mdA := gmindeploy.estep s.mdA (.block eA s.mdTxs), mdB := gmindeploy.estep s.mdB (.block eB s.mdTxs),
                       mgA := (Mgmt.management mgmtParams).cstep s.mgA (.block s.mgTxs), mgB := (Mgmt.management mgmtParams).cstep s.mgB (.block s.mgTxs),
                       setTxs := [], roleTxs := [], mgTxs := [], gpbTxs := [], mdTxs := [] }
@@ -554,7 +568,7 @@ def dstep (s : DState) (ws : List String) : DState × String :=
   | ["restartB"] => ({ s with b := step (nativeSys s.cfg) s.b .restart, wlB := wlApply s.wlB [.restart],
                                setB := gsettings.estep s.setB .restart, roleB := gdesignate.estep s.roleB .restart,
                                mgB := (Mgmt.management mgmtParams).cstep s.mgB .restart, gpbB := gpb.estep s.gpbB .restart,
-                               mdB := gmindeploy.estep s.mdB .restart }, "ok")
+                               mdB := gmindeploy.estep s.mdB .restart, gpvB := gpvStep s.gpvB .restart }, "ok")
   | ["flushB"] => ({ s with b := step (nativeSys s.cfg) s.b .flush }, "ok")
   | ["final"] => (s, obsBoth s)
   | ["aborted"] => (s, "aborted")
